@@ -327,3 +327,58 @@ def canonical_local_names(F):
                     fn.locals[k_]['name'] = n_
                 done[q] = len(ren)
     return done
+
+
+ADTS = os.path.join(os.path.dirname(os.path.abspath(__file__)), 'baseline_adts.json')
+
+
+def adt_fields(F):
+    return {q: [[(f.get('name'), f.get('ty')) for f in v.get('fields', [])] for v in a.get('variants', [])] for q, a in sorted(F.adts.items())}
+
+
+def canonical_field_names(F):
+    """A renamed struct field gets its reviewed name back in every place that projects it (same ADT, same number of fields
+    with the same types in the same order).  Cosmetic, like canonical_local_names."""
+    import json as _j
+    if not os.path.exists(ADTS):
+        return {}
+    base = _j.load(open(ADTS))
+    cur = adt_fields(F)
+    ren = {}
+    for q, vs in cur.items():
+        bv = base.get(q)
+        if not bv or len(bv) != len(vs):
+            continue
+        for v_, b_ in zip(vs, bv):
+            if len(v_) != len(b_) or [t for _, t in v_] != [t for _, t in b_]:
+                continue
+            for (n_, t_), (bn_, _) in zip(v_, b_):
+                if n_ != bn_ and n_ is not None and bn_ is not None:
+                    ren.setdefault(n_, set()).add((bn_, t_))
+    # a current name that is also the (unchanged) name of a field elsewhere is left alone
+    keep = {n_ for vs in cur.values() for v_ in vs for n_, _ in v_} - set(ren)
+    ren = {n_: list(x)[0] for n_, x in ren.items() if len(x) == 1 and list(x)[0][0] not in ren}
+    if not ren:
+        return {}
+
+    def walk(o):
+        if isinstance(o, dict):
+            if 'f' in o and o.get('name') in ren and (o.get('ty') is None or o.get('ty') == ren[o['name']][1]):
+                o['name'] = ren[o['name']][0]
+            if isinstance(o.get('fnames'), list):
+                o['fnames'] = [ren[x][0] if x in ren else x for x in o['fnames']]
+            for v in o.values():
+                walk(v)
+        elif isinstance(o, list):
+            for v in o:
+                walk(v)
+    for fn in F.fns.values():
+        walk(fn.blocks)
+        for pr in (fn.promoted or []):
+            walk(pr)
+    for a in F.adts.values():
+        for v in a.get('variants', []):
+            for f in v.get('fields', []):
+                if f.get('name') in ren:
+                    f['name'] = ren[f['name']][0]
+    return {k: v[0] for k, v in ren.items()}
